@@ -420,6 +420,10 @@ func abortKind(msg string) string {
 		return "end-skipped"
 	case strings.Contains(msg, "no tasks to execute"):
 		return "no-tasks"
+	case strings.Contains(msg, "stream reader is empty, concat fail"):
+		// a node that asked for a rerun runs on an empty stream when the run is resumed (its input is not
+		// kept); what it passes on may be empty, and a node that needs a value fails on it
+		return "empty-concat"
 	}
 	return "other"
 }
@@ -563,25 +567,34 @@ func coqEntry(e *env, id, local int, brs []BranchSpec, seen map[int]int) (string
 // coqCall renders one recorded call: its batches and the tasks that interrupted themselves (those carry
 // no branch outcomes: their branches were not evaluated).
 func coqCall(e *env, call callRec, nodes []NodeSpec, idOf func(int) int, seen map[int]int) (string, bool) {
-	isRR := map[string]bool{}
-	for _, k := range call.rr {
-		isRR[k] = true
+	localOf := func(key string) (int, int, bool) {
+		id, ok := nodeIndex(key)
+		if !ok {
+			return 0, 0, false
+		}
+		for j := range nodes {
+			if idOf(j) == id {
+				return id, j, true
+			}
+		}
+		return 0, 0, false
 	}
 	var out []string
-	for _, b := range call.sched {
-		var items []string
-		for _, key := range b {
-			id, ok := nodeIndex(key)
+	for bi, b := range call.sched {
+		isRR := map[string]bool{}
+		var rr []uint64
+		for _, k := range call.rr[bi] {
+			isRR[k] = true
+			_, local, ok := localOf(k)
 			if !ok {
 				return "", false
 			}
-			local := -1
-			for j := range nodes {
-				if idOf(j) == id {
-					local = j
-				}
-			}
-			if local < 0 {
+			rr = append(rr, coqKey(local))
+		}
+		var items []string
+		for _, key := range b {
+			id, local, ok := localOf(key)
+			if !ok {
 				return "", false
 			}
 			if isRR[key] {
@@ -594,18 +607,9 @@ func coqCall(e *env, call callRec, nodes []NodeSpec, idOf func(int) int, seen ma
 			}
 			items = append(items, it)
 		}
-		out = append(out, lib.CoqList(items))
+		out = append(out, lib.CoqPair(lib.CoqList(items), lib.CoqNList(rr)))
 	}
-	var rr []uint64
-	for _, key := range call.rr {
-		id, _ := nodeIndex(key)
-		for j := range nodes {
-			if idOf(j) == id {
-				rr = append(rr, coqKey(j))
-			}
-		}
-	}
-	return lib.CoqApp("mkseg", lib.CoqList(out), lib.CoqNList(rr)), true
+	return lib.CoqList(out), true
 }
 
 // coqCase renders the compiled graph (chanCall of START and of every node), the interrupt
@@ -632,11 +636,11 @@ func coqCase(c *Case, e *env, sum *hookSummary) (string, bool) {
 			return "", false
 		}
 		tms = append(tms, tm)
-		isRR := map[string]bool{}
-		for _, k := range call.rr {
-			isRR[k] = true
-		}
-		for _, b := range call.sched {
+		for bi, b := range call.sched {
+			isRR := map[string]bool{}
+			for _, k := range call.rr[bi] {
+				isRR[k] = true
+			}
 			for _, key := range b {
 				id, ok := nodeIndex(key)
 				if !ok || id >= subBase {
